@@ -49,7 +49,7 @@ func (c06) Budget(tier string) runner.Budget {
 	if tier == "thorough" {
 		return runner.Budget{Plans: 30000, PlansPerProc: 15, Wall: 14 * time.Minute}
 	}
-	return runner.Budget{Plans: 4800, PlansPerProc: 30, Wall: 45 * time.Second}
+	return runner.Budget{Plans: 8000, PlansPerProc: 30, Wall: 45 * time.Second}
 }
 
 func (c06) Describe() runner.Description {
